@@ -180,6 +180,8 @@ class SplineCalibrator(Calibrator):
         """
         x = [float(p.raw) for p in self.points]
         y = [float(p.calibrated) for p in self.points]
+        if query_point == max(x):
+            return y[-1]  # The range of the spline points is closed: the last point maps to its own value
         if min(x) <= query_point <= max(x):
             first_greater = [p.raw > query_point for p in self.points].index(True)
             return y[first_greater - 1]
@@ -226,6 +228,8 @@ class SplineCalibrator(Calibrator):
 
         x = [p.raw for p in self.points]
         y = [p.calibrated for p in self.points]
+        if query_point == max(x):
+            return float(y[-1])  # The range of the spline points is closed: the last point maps to its own value
         if min(x) <= query_point <= max(x):
             first_greater = [p.raw > query_point for p in self.points].index(True)
             return linear_func(query_point,
